@@ -63,6 +63,12 @@ def projects(tier):
     # same-timestamp sequences: tick() records block.timestamp, hit() sets s = 9 iff it runs at exactly that time
     for d in ((2,) if tier == "quick" else (1, 2, 3)):
         out.append({"desc": {"targets": [["tick", "hit"]], "invariants": [[0, "s", "ne", 9], [0, "t", "le", 1], [0, "t", "lenow", 0]], "filters": None}, "depth": d})
+    # states that may be merged only if identical: (a) same stored term, constraints that differ through a chain of constraints;
+    # (b) same storage, different admissible future timestamps
+    for d in ((2,) if tier == "quick" else (1, 2, 3)):
+        out.append({"desc": {"targets": [["eqset", "eq5"]], "invariants": [[0, "t", "ne", 1], [0, "s", "ne", 5], [0, "s", "ne", 12]], "filters": None}, "depth": d})
+    for fns in (["arm", "late", "anyt", "early"], ["arm", "anyt", "late", "early"]):
+        out.append({"desc": {"targets": [fns], "invariants": [[0, "t", "ne", 9], [0, "s", "ne", 2]], "filters": None}, "depth": 3})
     # two targets, filters: every combination over a 2-element pool
     two = [["inc", "own"], ["set", "step"]]
     inv2 = [[0, "s", "ne", 2], [0, "s", "ne", 7], [1, "s", "ne", 5], [1, "s", "ne", 3], [0, "s", "le", 1]]
@@ -93,7 +99,7 @@ def name_of(p):
 # representation check
 # ---------------------------------------------------------------------------
 
-SYM_DOMAIN = sorted({v for d in invgen.ARG_DOMAIN.values() for v in d}) + [ invgen.S1, invgen.S2, invgen.DEFAULT_SENDER]
+SYM_DOMAIN = sorted({x for d in invgen.ARG_DOMAIN.values() for v in d for x in (v if isinstance(v, tuple) else (v,))}) + [invgen.S1, invgen.S2, invgen.DEFAULT_SENDER]
 
 
 def storage_terms(ex, addr_int):
@@ -306,7 +312,7 @@ def check_project(acc, p):
         return
     ref = invgen.reference_bfs(P, depth)
     # the same search with no time passing between setUp and the first call: used only to *name* disagreements that are due to it
-    ref_nt = invgen.reference_bfs(P, depth, first_call_at_setup_time=True) if any("tick" in t for t in desc["targets"]) else ref
+    ref_nt = invgen.reference_bfs(P, depth, first_call_at_setup_time=True) if any(tf in t for t in desc["targets"] for tf in invgen.TIME_FUNCS) else ref
     warns = [m for (lvl, m) in rr.logs if lvl in ("WARNING", "ERROR")]
     by = rr.by_name()
     acc.count("reference_states", sum(len(v) for v in ref["states"].values()))
